@@ -151,13 +151,25 @@ func NewEngine(c EngCfg) *liquid.Engine {
 		}
 		return map[string]any{"k": k, "v": v}
 	})
+	registerHx(e, 0)
+	return e
+}
+
+// registerHx registers the filter hx as a closure over a tag string. Generation 0 is what
+// every engine starts with; a history may register it AGAIN under the same name with a
+// sibling closure (same function literal, other captured state): templates rendered before
+// must then use the new one, as a template that was never rendered does.
+func registerHx(e *liquid.Engine, gen int) {
+	tag := "#"
+	if gen > 0 {
+		tag = fmt.Sprintf("@%d", gen)
+	}
 	e.RegisterFilter("hx", func(s string) (string, error) {
 		if err := cbTick(); err != nil {
 			return "", err
 		}
-		return "#" + s + "#", nil
+		return tag + s + tag, nil
 	})
-	return e
 }
 
 // Res is everything observable about one call.
